@@ -71,7 +71,7 @@ PROPS["C17"] = {"engines": [{"engine": "input", "shim": False}], "rule": INPUT_R
 PROPS["C18"] = {"engines": [{"engine": "input", "shim": False}], "rule": INPUT_RULE,
                 "explanation": "Identity from content only: all short contents x all compositions x empty writes, and buffer-straddling splits of a 20000-byte content, give (blake3, len) and the file at the independently derived path; the hash<->path map is checked on 32768 hashes (every byte position x value). The 'random' clauses are not covered."}
 
-PROPS["C10"] = {"engines": [{"engine": "waldmg", "shim": False}],
+PROPS["C10"] = {"engines": [{"engine": "waldmg", "shim": True}],
                 "rule": ("for every cleanly closed store produced by the listed histories the un-checkpointed records are located with an independent decoder; every truncation "
                          "offset of that tail (later segments dropped) and every byte of every checksum and payload x the stated values is applied to a copy, which is opened "
                          "with Cas::open under catch_unwind. states = distinct damaged inputs, transitions = opens."),
